@@ -267,13 +267,13 @@ func genC01(g *Gen) {
 		g.Count(cfg.kind)
 	}
 	// every small n x all configurations
-	maxn := int64(g.pick(64, 512))
+	maxn := int64(g.pick(64, 256))
 	for n := int64(1); n <= maxn; n++ {
 		for _, cfg := range ensCfg {
 			add(cfg, big.NewInt(n))
 		}
 	}
-	for n := int64(1); n <= int64(g.pick(200, 2000)); n++ {
+	for n := int64(1); n <= int64(g.pick(200, 1000)); n++ {
 		for _, cfg := range extraCfg {
 			add(cfg, big.NewInt(n))
 		}
@@ -285,16 +285,21 @@ func genC01(g *Gen) {
 		}
 	}
 	// structured values up to 1024 bits x ensemble (+ extras on a subset)
-	for i := 0; i < g.pick(30, 400); i++ {
+	for i := 0; i < g.pick(30, 80); i++ {
 		K := uint(1 + g.R.Intn(8))
 		T := uint(g.R.Intn(20))
 		if g.R.Intn(3) == 0 {
 			K = uint(4 << uint(g.R.Intn(6)))
 			T = uint(16 << uint(g.R.Intn(4)))
 		}
-		maxbits := 1024
-		if !g.Thorough {
-			maxbits = 300
+		maxbits := 300
+		if g.Thorough {
+			// every fourth target up to the documented 1024 bits (a 1024-bit case line carries ~0.3 MB
+			// of stage-wise data; the driver re-validates every chain)
+			maxbits = 400
+			if i%4 == 0 {
+				maxbits = 1024
+			}
 		}
 		x := structured(g, 1, maxbits, K, T)[0]
 		for _, cfg := range ensCfg {
@@ -312,7 +317,7 @@ func genC01(g *Gen) {
 			runsCfg = append(runsCfg, cfg)
 		}
 	}
-	for i := 0; i < g.pick(250, 30000); i++ {
+	for i := 0; i < g.pick(250, 8000); i++ {
 		x := new(big.Int)
 		nr := 3 + g.R.Intn(6)
 		maxlen := 48
@@ -330,7 +335,7 @@ func genC01(g *Gen) {
 		if g.R.Intn(4) == 0 {
 			x.Lsh(x, uint(g.R.Intn(5)))
 		}
-		if g.Thorough && i >= 2000 {
+		if g.Thorough && i >= 1000 {
 			// the long tail: only the two configurations most sensitive to chain order
 			add(parseConfig("runs/hr.U.H.A"), x)
 			add(parseConfig("opt/runs/hr.U.H.A"), x)
